@@ -663,6 +663,182 @@ def gen_params(rng, call, dialects):
     return p
 
 
+
+# ------------------------------------------------------------------------------------------ sub-nodes and leaf nodes
+# The documented-to-copy generation entry points called directly on SUB-nodes / leaf nodes (attached or detached): DataType
+# nodes incl. `.type` annotations, Literals, Identifiers, Columns, Stars, single function calls. Dialect generators rewrite a
+# node's OWN args in place (e.g. Redshift/Hive `datatype_sql`) and rely on generate() having copied even a childless root.
+SUB_ENTRIES = {
+    "sql": lambda n, d: n.sql(dialect=d),
+    "sql(pretty,identify)": lambda n, d: n.sql(dialect=d, pretty=True, identify=True),
+    "Dialect.generate": lambda n, d: _dialect(d).generate(n),
+    "Dialect.generate(opts)": lambda n, d: _dialect(d).generate(n, normalize=True, comments=False),
+    "Generator.generate": lambda n, d: _dialect(d).generator().generate(n),
+    "str": lambda n, d: str(n) + format(n, ""),
+}
+
+
+def _dialect(d):
+    from sqlglot.dialects.dialect import Dialect
+    return Dialect.get_or_raise(d)
+
+
+_LEAVES = None
+
+
+def leaf_specs():
+    """deterministic list of (label, thunk) building small detached nodes"""
+    global _LEAVES
+    if _LEAVES is None:
+        L = []
+        for ty in exp.DataType.Type:
+            L.append(("dtype:" + ty.name, (lambda ty=ty: exp.DataType(this=ty))))
+        for txt in ("VARCHAR(10)", "CHAR(3)", "DECIMAL(10, 2)", "ARRAY<INT>", "MAP<TEXT, INT>", "STRUCT<a INT, b TEXT>",
+                    "TIMESTAMP(3)", "VARCHAR(MAX)", "NUMERIC", "INT[]", "TEXT(5)", "NVARCHAR(20)", "DOUBLE PRECISION"):
+            L.append(("dtype-build:" + txt, (lambda txt=txt: exp.DataType.build(txt))))
+        L += [
+            ("lit:num", lambda: exp.Literal.number("12")), ("lit:float", lambda: exp.Literal.number("1.50")),
+            ("lit:str", lambda: exp.Literal.string("a'b\\c")), ("lit:neg", lambda: exp.Literal.number("-3")),
+            ("ident", lambda: exp.to_identifier("Ab")), ("ident:q", lambda: exp.to_identifier("a b", quoted=True)),
+            ("star", lambda: exp.Star()), ("col", lambda: exp.column("a")), ("col:t", lambda: exp.column("a", "T", "db")),
+            ("col:star", lambda: exp.Column(this=exp.Star(), table=exp.to_identifier("t"))),
+            ("null", lambda: exp.Null()), ("true", lambda: exp.Boolean(this=True)), ("var", lambda: exp.Var(this="x")),
+            ("placeholder", lambda: exp.Placeholder(this="p")), ("table", lambda: exp.to_table("c.d.t")),
+            ("interval", lambda: exp.Interval(this=exp.Literal.string("1"), unit=exp.Var(this="DAY"))),
+        ]
+        for fsql in ("CURRENT_DATE", "CURRENT_TIMESTAMP", "UPPER(a)", "COALESCE(a, b)", "CAST(a AS TEXT)", "CAST(a AS VARCHAR)",
+                     "TRY_CAST(a AS TEXT)", "a::VARCHAR(MAX)", "DATE_ADD(a, 1)", "SUBSTRING(a, 1, 2)", "COUNT(DISTINCT a)", "IF(a, 1, 2)",
+                     "DATE_TRUNC('month', a)", "STR_TO_DATE(a, '%Y')", "x -> x + 1", "ARRAY(1, 2)", "a IS NULL", "a || b",
+                     "a / b", "a % b", "NOT a", "-a", "a LIKE 'x%'", "EXTRACT(year FROM a)", "a::DATE - b::DATE", "LOG(2, a)",
+                     "SUM(a) OVER (PARTITION BY b)", "CASE WHEN a THEN 1 END", "CAST(a AS DECIMAL(10, 2))", "JSON_EXTRACT(a, '$.b')"):
+            L.append(("expr:" + fsql, (lambda fsql=fsql: sqlglot.parse_one(fsql))))
+        _LEAVES = L
+    return _LEAVES
+
+
+def _locate(case):
+    """(old root, node) for a sub-node case"""
+    a = case["args"]
+    nd = a["node"]
+    if nd["kind"] == "leaf":
+        specs = dict(leaf_specs())
+        node = specs[nd["label"]]()
+        return node, node
+    t = build_tree(case["sql"], case.get("dialect"), case["prep"])
+    order = nodes(t)
+    n = order[nd["i"]]
+    if nd["kind"] == "type":
+        n = n._type
+        if n is None:
+            raise c08.UnknownOp("no type annotation")
+    if a.get("detached"):
+        n = n.copy()
+        return n, n
+    return t, n
+
+
+def evaluate_subnode(case):
+    a = case["args"]
+    root, node = _locate(case)
+    if a.get("prehash"):
+        hash(node)
+    trees = [root] if node is root else [root, node]
+    before = [fingerprint(x) for x in trees]
+    ext = [x.parent for x in trees]
+    err = None
+    with MON.protect(trees) as mon:
+        try:
+            SUB_ENTRIES[a["entry"]](node, a["d"])
+        except Exception as e:  # noqa: BLE001 — unsupported / internal errors are C05's business
+            err = type(e).__name__
+    after = [fingerprint(x) for x in trees]
+    events = list(mon.events)
+    what = None
+    field = None
+    for i, (b, f, x) in enumerate(zip(before, after, trees)):
+        d = fp_diff(b, f)
+        if d is None and ext[i] is not x.parent:
+            d = "parent"
+        if d is not None:
+            field = d
+            what = (f"{'the node itself' if x is node else 'the old root'} ({type(x).__name__}) changed: first difference in field "
+                    f"{d!r}: {b['sql']!r} -> {f['sql']!r}")
+            break
+    if events and field is None:
+        e = events[0]
+        field = f"write:{e['op']}@{e['site'][0] if e['site'] else '?'}"
+        what = f"{e['op']}() on a {e['on']} of the argument from {' <- '.join(e['site'])}"
+    if field is None:
+        return None
+    kind = "type-annotation" if a["node"]["kind"] == "type" else ("detached" if node is root else "attached")
+    key = f"call:subnode:{a['entry']}|{a['d'] or 'base'}|{type(node).__name__}:{kind}:{field}"
+    return key, f"{a['entry']} in dialect {a['d']!r} on a {kind} {type(node).__name__} node ({err or 'returned'}): {what}; {len(events)} monitored writes"
+
+
+def sweep_subnodes(chk: Check, gen, dialects, deadline, rng) -> int:
+    """(1) every synthesized leaf x every dialect (entry points rotate; thorough: all of them);
+       (2) sub-nodes and `.type` annotations of generated trees, attached and detached; DataType nodes over ALL dialects"""
+    import logging
+    logging.getLogger("sqlglot").setLevel(logging.ERROR)  # unsupported-feature warnings of the generators are not findings
+    n = 0
+    entries = list(SUB_ENTRIES)
+    dialects = [None] + [d for d in dialects if d]
+
+    def one(case):
+        nonlocal n
+        n += 1
+        chk.count("call:subnode:" + case["args"]["entry"])
+        chk.count("subnode:" + case["args"]["node"]["kind"])
+        try:
+            res = evaluate_subnode(case)
+        except (c08.UnknownOp, IndexError):
+            return
+        chk.case(("subnode", json.dumps(case, sort_keys=True)), nontrivial=True, sample=case if n % 2999 == 1 else None)
+        if res:
+            # a smaller replay when the same verdict shows on a detached copy with the default entry point
+            small = {**case, "args": {**case["args"], "detached": True, "prehash": False}}
+            try:
+                r2 = evaluate_subnode(small) if case["args"]["node"]["kind"] != "leaf" else None
+            except Exception:  # noqa: BLE001
+                r2 = None
+            if r2 and r2[0] == res[0]:
+                case = small
+            chk.report_violation(res[0], res[1], case, context={"call": "subnode"})
+
+    for li, (label, _) in enumerate(leaf_specs()):
+        for di, d in enumerate(dialects):
+            if len(chk.violations) >= 3:
+                return n
+            for e in (entries if not chk.quick else [entries[(li + di) % len(entries)]]):
+                one({"call": "subnode", "sql": None, "dialect": None, "sql2": None, "prep": {},
+                     "args": {"node": {"kind": "leaf", "label": label}, "entry": e, "d": d, "prehash": (li + di) % 5 == 0}})
+    interesting = (exp.DataType, exp.Literal, exp.Identifier, exp.Column, exp.Star, exp.Func, exp.Cast, exp.Table, exp.Alias)
+    while time.time() < deadline and len(chk.violations) < 3:
+        sql = gen.query(rng.choice([0, 1, 1, 2]))
+        prep = {"prehash": False, "annotate": rng.random() < 0.7, "schema": rng.choice(["int", "mixed"])}
+        try:
+            t = build_tree(sql, None, prep)
+        except Exception:  # noqa: BLE001
+            continue
+        order = nodes(t)
+        cand = [i for i, x in enumerate(order) if isinstance(x, interesting)] or list(range(len(order)))
+        for _ in range(chk.pick(4, 10)):
+            if time.time() > deadline:
+                break
+            i = rng.choice(cand)
+            kind = "type" if (order[i]._type is not None and rng.random() < 0.45) else "pre"
+            target = order[i]._type if kind == "type" else order[i]
+            ds = dialects if isinstance(target, exp.DataType) or not chk.quick else rng.sample(dialects, 6)
+            det = rng.random() < 0.4
+            for d in ds:
+                one({"call": "subnode", "sql": sql, "dialect": None, "sql2": None, "prep": prep,
+                     "args": {"node": {"kind": kind, "i": i}, "detached": det, "entry": rng.choice(entries), "d": d,
+                              "prehash": rng.random() < 0.2}})
+                if len(chk.violations) >= 3:
+                    return n
+    return n
+
+
 def search(chk: Check, hints: list, budget_s: float) -> None:
     t0 = time.time()
     rng = chk.rng
@@ -674,20 +850,21 @@ def search(chk: Check, hints: list, budget_s: float) -> None:
                             "excluded_no_copy_default": sorted(n for n, v in inc.items() if v is None)}
     active = [c for n, c in allc.items() if inc[n] and n != "sql"]
     dialects = c08.all_dialects()
-    n_cases = n_copy = found = 0
+    n_cases = n_copy = found = n_sub = 0
     sc = [("x", c) for c in "abc"] + [("y", c) for c in "abc"]
     MON.install()
     try:
         for h in hints or []:
             try:
-                res = evaluate(h)
+                res = evaluate_subnode(h) if h.get("call") == "subnode" else evaluate(h)
             except (c08.UnknownOp, KeyError, TypeError):
                 chk.count("hint:skipped")
                 continue
             chk.count("hint:run")
             if res:
                 report(chk, h, res)
-        t_calls = t0 + budget_s * 0.7
+        n_sub = sweep_subnodes(chk, gen, dialects, t0 + budget_s * 0.2, rng)
+        t_calls = t0 + budget_s * 0.75
 
         def one(case):
             nonlocal n_cases, found
@@ -760,7 +937,7 @@ def search(chk: Check, hints: list, budget_s: float) -> None:
                     chk.report_violation(res[0], res[1] + " (not reproduced by the from-scratch replay)", case, context={"call": "copy-edit"})
     finally:
         MON.uninstall()
-    chk.search_info = {"ran": True, "budget_s": budget_s, "calls": n_cases, "copy_histories": n_copy, "violating": found,
+    chk.search_info = {"ran": True, "budget_s": budget_s, "calls": n_cases, "subnode_calls": n_sub, "copy_histories": n_copy, "violating": found,
                        "apis": len(active) + 1, "dialects": len(dialects), "elapsed_s": round(time.time() - t0, 1),
                        "oracle": "fingerprint (links, args, comments, types, meta, sql(), repr()) of every argument tree identical before/after "
                                  "AND no monitored set/append/replace/pop/_set_parent touches a node of an argument tree; diff(): no hash "
@@ -949,7 +1126,7 @@ def replay(path: str) -> int:
         return 1
     MON.install()
     try:
-        res = evaluate(case)
+        res = evaluate_subnode(case) if case["call"] == "subnode" else evaluate(case)
     finally:
         MON.uninstall()
     print("replay:", f"VIOLATES [{res[0]}]: {res[1]}" if res else "holds")
